@@ -31,74 +31,98 @@ func C03(c *core.Ctx) {
 		}
 		return id.Name == "RoundingRuleCurrency"
 	}
-	if fd := p.Func("tax", "", "ApplyRoundingRule"); fd != nil {
+	// decided on the normalised view (switch and if forms alike): for each return, which rule is
+	// known to apply there and which operation produces the value
+	ruleAt := func(ff *core.FuncFlow, info *types.Info, rr *types.Var, r *ast.ReturnStmt) string {
+		for leaf, val := range ff.Flow.CondsAt(r) {
+			be, ok := ast.Unparen(leaf).(*ast.BinaryExpr)
+			if !ok || (be.Op != token.EQL && be.Op != token.NEQ) {
+				continue
+			}
+			x, y := be.X, be.Y
+			if core.VarOf(info, y) == rr {
+				x, y = y, x
+			}
+			if core.VarOf(info, x) != rr || !curKey(info, y) {
+				continue
+			}
+			if (be.Op == token.EQL) == val {
+				return "currency"
+			}
+			return "other"
+		}
+		return ""
+	}
+	if fd := p.Inlined(p.RawFunc("tax", "", "ApplyRoundingRule")); fd != nil {
 		info := fd.Pkg.TypesInfo
 		sig := fd.Obj.Type().(*types.Signature)
-		amount := sig.Params().At(2)
-		var expVar *types.Var
-		expOK := false
-		ast.Inspect(fd.Decl.Body, func(n ast.Node) bool {
-			if as, ok := n.(*ast.AssignStmt); ok && len(as.Lhs) == 1 {
-				if f := core.FieldOf(info, as.Rhs[0]); f != nil && f.Name() == "Subunits" {
-					expVar = core.VarOf(info, as.Lhs[0])
-					if call, ok := ast.Unparen(as.Rhs[0].(*ast.SelectorExpr).X).(*ast.CallExpr); ok && core.VarOf(info, core.RecvExpr(call)) == sig.Params().At(1) {
-						expOK = true
+		rr, amount := sig.Params().At(0), sig.Params().At(2)
+		ld := core.NewLocalDefs(info, fd.Decl.Body)
+		ff := core.NewFuncFlow(fd)
+		got := map[string]string{}
+		expOK := true
+		for _, r := range ff.Flow.Returns() {
+			if len(r.Results) != 1 || !ff.Flow.Reachable(r) {
+				continue
+			}
+			call, ok := ast.Unparen(ld.Resolve(r.Results[0], 2)).(*ast.CallExpr)
+			if !ok || core.VarOf(info, core.RecvExpr(call)) != amount || len(call.Args) != 1 {
+				// the currency definition's own helpers: def.Rescale(amount) / def.RescaleUp(amount)
+				if ok && len(call.Args) == 1 && core.VarOf(info, call.Args[0]) == amount && core.Callee(info, call) != nil && core.IsFunc(core.Callee(info, call), core.ModPath+"/currency", "Def", core.Callee(info, call).Name()) {
+					name := core.Callee(info, call).Name()
+					if dc, isC := ast.Unparen(ld.Resolve(core.RecvExpr(call), 2)).(*ast.CallExpr); !isC || core.VarOf(info, core.RecvExpr(dc)) != sig.Params().At(1) {
+						expOK = false
+					}
+					switch ruleAt(ff, info, rr, r) {
+					case "currency":
+						got["currency"] = name
+					case "other":
+						got["default"] = name
 					}
 				}
+				continue
 			}
-			return true
-		})
-		c.Ob("C03-R1", fd.Name()+"#currency-subunits", fd.Decl.Pos(), expOK, "the target precision is not the Subunits of the currency parameter's definition")
-		got := map[string]string{}
-		ast.Inspect(fd.Decl.Body, func(n ast.Node) bool {
-			cc, ok := n.(*ast.CaseClause)
-			if !ok || len(cc.Body) != 1 {
-				return true
-			}
-			r, ok := cc.Body[0].(*ast.ReturnStmt)
-			if !ok || len(r.Results) != 1 {
-				return true
-			}
-			call, ok := ast.Unparen(r.Results[0]).(*ast.CallExpr)
-			if !ok || core.VarOf(info, core.RecvExpr(call)) != amount || len(call.Args) != 1 || core.VarOf(info, call.Args[0]) != expVar {
-				return true
-			}
-			name := core.Callee(info, call).Name()
-			if cc.List == nil {
-				got["default"] = name
-			}
-			for _, e := range cc.List {
-				if curKey(info, e) {
-					got["currency"] = name
+			// the precision handed over is the Subunits of the currency parameter's definition
+			okExp := false
+			if se, isSel := ast.Unparen(ld.Resolve(call.Args[0], 2)).(*ast.SelectorExpr); isSel && se.Sel.Name == "Subunits" {
+				if dc, isC := ast.Unparen(ld.Resolve(se.X, 2)).(*ast.CallExpr); isC && core.VarOf(info, core.RecvExpr(dc)) == sig.Params().At(1) {
+					okExp = true
 				}
 			}
-			return true
-		})
+			if !okExp {
+				expOK = false
+			}
+			name := core.Callee(info, call).Name()
+			switch ruleAt(ff, info, rr, r) {
+			case "currency":
+				got["currency"] = name
+			case "other":
+				got["default"] = name
+			}
+		}
+		c.Ob("C03-R1", fd.Name()+"#currency-subunits", fd.Decl.Pos(), expOK, "the target precision is not the Subunits of the currency parameter's definition")
 		c.Ob("C03-R1", fd.Name()+"#currency-arm", fd.Decl.Pos(), got["currency"] == "Rescale", fmt.Sprintf("under the 'currency' rule the amount is not rounded to the currency's decimals with Rescale (found %q): amounts keep hidden decimals and the presented figures no longer re-add", got["currency"]))
 		c.Ob("C03-R1", fd.Name()+"#default-arm", fd.Decl.Pos(), got["default"] == "RescaleUp", fmt.Sprintf("under the 'precise' rule precision is not only raised (found %q)", got["default"]))
 	} else {
 		c.Ob("C03-R1", "UNRESOLVED:tax.ApplyRoundingRule", token.NoPos, false, "function not found")
 	}
-	if fd := p.Func("tax", "", "matchRoundingPrecision"); fd != nil {
+	if fd := p.Inlined(p.RawFunc("tax", "", "matchRoundingPrecision")); fd != nil {
 		info := fd.Pkg.TypesInfo
 		sig := fd.Obj.Type().(*types.Signature)
-		a := sig.Params().At(1)
+		rr, a := sig.Params().At(0), sig.Params().At(1)
+		ff := core.NewFuncFlow(fd)
 		okCur, okDef := false, false
-		ast.Inspect(fd.Decl.Body, func(n ast.Node) bool {
-			if cc, ok := n.(*ast.CaseClause); ok && len(cc.Body) == 1 {
-				if r, ok := cc.Body[0].(*ast.ReturnStmt); ok && len(r.Results) == 1 && core.VarOf(info, r.Results[0]) == a {
-					for _, e := range cc.List {
-						if curKey(info, e) {
-							okCur = true
-						}
-					}
-				}
+		for _, r := range ff.Flow.Returns() {
+			if len(r.Results) != 1 || !ff.Flow.Reachable(r) {
+				continue
 			}
-			return true
-		})
-		if r, ok := fd.Decl.Body.List[len(fd.Decl.Body.List)-1].(*ast.ReturnStmt); ok && len(r.Results) == 1 {
-			if call, ok := ast.Unparen(r.Results[0]).(*ast.CallExpr); ok && isAmountMethod(core.Callee(info, call), "MatchPrecision") && core.VarOf(info, core.RecvExpr(call)) == a {
-				okDef = true
+			switch ruleAt(ff, info, rr, r) {
+			case "currency":
+				okCur = core.VarOf(info, r.Results[0]) == a
+			case "other":
+				if call, ok := ast.Unparen(r.Results[0]).(*ast.CallExpr); ok && isAmountMethod(core.Callee(info, call), "MatchPrecision") && core.VarOf(info, core.RecvExpr(call)) == a {
+					okDef = true
+				}
 			}
 		}
 		c.Ob("C03-R1", fd.Name()+"#currency-keeps-accumulator", fd.Decl.Pos(), okCur, "under the 'currency' rule the sum's precision is not kept (it must not be raised to an addend's)")
